@@ -135,14 +135,17 @@ Fixpoint cache_get (c : list (Z * (Z * Z))) (i : Z) : option (Z * Z) :=
   | (j, a) :: t => if j =? i then Some a else cache_get t i
   end.
 
+(* qb_array_index up to (and including) the autogrow call: an error code, or the state to go on with *)
+Definition index_pre (w : world) (idx : Z) : Z + world :=
+  match index_check w idx with
+  | PFail rc => inl rc
+  | PGrow => let '(w1, rc) := do_grow w (idx + 1) in if rc =? 0 then inr w1 else inl rc
+  | PGo => inr w
+  end.
+
 Definition do_index (w : world) (idx : Z) : world * out :=
   if idx <? 0 then (w, OIndex (- ARRAY_ERANGE) None []) else
-  let pre := match index_check w idx with
-             | PFail rc => inl rc
-             | PGrow => let '(w1, rc) := do_grow w (idx + 1) in if rc =? 0 then inr w1 else inl rc
-             | PGo => inr w
-             end in
-  match pre with
+  match index_pre w idx with
   | inl rc => (w, OIndex rc None [])
   | inr w1 =>
       let b := bin_of idx in
